@@ -3,7 +3,7 @@ import RxnModel.Model.Wal
 /-!
 Driver section for C17. Stateful per case:
   SST:  `tbl <ents>` | `get k` | `rget k` | `scan p` | `rscan p` | `bloom k` | `run <target> <ents>` | `runok` | `sel i`
-        | `info` | `runinfo` | `rdoc`
+        | `info` | `runinfo` | `rdoc` | `corrupt ver|trunc n` | `cget k` | `cscan p`
   WAL:  `wnew id max` | `wput k v seq` | `wdel k seq` | `wcut` | `wtrunc seq` | `wrot` | `wstate` | `wread after`
         | `wreadhex <hex> after` | `wfile`
 Entries: comma separated `key/seq/del/val` (hex, `-` = empty); `-` alone = no entries.
@@ -17,6 +17,8 @@ structure St where
   doc : Doc := docOf []
   fresh : Option Meta := none          -- metadata of the freshly written table
   reopened : Option Meta := none       -- metadata loaded from the file via the document
+  cdata : Bytes := []                  -- a damaged copy of the file (outside the property: robustness only)
+  cmeta : Option Meta := none
   chunks : List (List Entry) := []
   w : Wal.Writer := Wal.Writer.new 0 0
   saved : Bytes := []                  -- last saved WAL file
@@ -78,6 +80,13 @@ def step (st : St) : List String → St × String
   | ["rscan", p] => (st, withMeta st.reopened fun _ => match scanPrefix st.doc.entriesSize st.data (hexOr p) with
       | some es => showEntries es | none => "err")
   | ["rdoc"] => (st, withMeta st.reopened fun _ => s!"{toHex st.doc.startKey} {toHex st.doc.endKey} {st.doc.size} {st.doc.entriesSize}")
+  | ["corrupt", kind, n] =>
+    let cdata := if kind == "ver" then st.data.take (st.data.length - u32W) ++ leBytes u32W (natOr n)
+                 else st.data.take (st.data.length - natOr n)
+    ({ st with cdata := cdata, cmeta := openDoc st.doc cdata }, "ok")
+  | ["cget", k] => (st, withMeta st.cmeta fun m => showGet (get m st.doc.entriesSize st.cdata (hexOr k)))
+  | ["cscan", p] => (st, withMeta st.cmeta fun _ => match scanPrefix st.doc.entriesSize st.cdata (hexOr p) with
+      | some es => showEntries es | none => "err")
   | ["bloom", k] => (st, withMeta st.reopened fun m => toString (m.bloom.mightHave (hexOr k)))
   | ["run", target, es] =>
     ({ st with chunks := writeRun (natOr target) (parseEntries es) }, "ok")
